@@ -31,6 +31,9 @@ type params struct {
 	Slice       int  // this unit explores first-fault positions k with k % Slices == Slice
 	Slices      int
 	TailRestart bool // explore a restart before the following blocks
+	// ReadFault: instead of a row-write fault at every position, one attempt fails on the READ path: the tree's node
+	// table is unreadable while the frontier is being rebuilt (after a restart, after a rolled-back attempt, after a reorg)
+	ReadFault bool
 }
 
 var prefixes = map[sk.Kind][][]string{
@@ -90,6 +93,21 @@ func units(tier string) []mc.Unit {
 							Params: params{Store: store, Prefix: pre, Block: blk, Tail: tail, Double: true, Slice: s, Slices: slices}})
 					}
 				}
+			}
+		}
+	}
+	// read faults while the Merkle frontier is rebuilt from the node table
+	for _, store := range []sk.Kind{sk.Bridge, sk.L1Info} {
+		for pi, pre := range prefixes[store] {
+			if tier == "quick" && pi > 4 {
+				continue
+			}
+			for _, blk := range faulted[store] {
+				if store == sk.Bridge && !strings.HasPrefix(blk, "bridge") || store == sk.L1Info && !strings.HasPrefix(blk, "info") && blk != "v2" {
+					continue
+				}
+				name := fmt.Sprintf("%s:[%s]+%s+[%s]/readfault", store, strings.Join(pre, ","), blk, strings.Join(tails[store][0], ","))
+				us = append(us, mc.Unit{Name: name, Params: params{Store: store, Prefix: pre, Block: blk, Tail: tails[store][0], Slices: 1, ReadFault: true, TailRestart: true}})
 			}
 		}
 	}
@@ -184,6 +202,41 @@ func run(c *mc.Ctx, u mc.Unit) {
 	maxFaults := 1
 	if p.Double {
 		maxFaults = 2
+	}
+	if p.ReadFault {
+		maxFaults = 0
+		// how the cached frontier got invalid: a restart, a rolled-back attempt (write fault at the last row write:
+		// every leaf had been added), or a reorg above the tip (removes nothing)
+		switch c.Choose(3, "frontier-invalidated-by") {
+		case 0:
+			a.Restart()
+			ctxt += ", restart"
+		case 1:
+			a.Arm(K)
+			err := a.Process(blk)
+			a.Arm(-1)
+			if err == nil {
+				c.Failf(fmt.Sprintf("%s/fault-swallowed", p.Store), "%s: ProcessBlock returned nil although write %d of %d failed", ctxt, K, K)
+				return
+			}
+			ctxt += fmt.Sprintf(", rolled-back attempt (fault at write %d)", K)
+		case 2:
+			if err := a.Reorg(chain.Tip() + 1); err != nil {
+				c.Failf(fmt.Sprintf("%s/Reorg/error", p.Store), "%s: Reorg(%d): %v", ctxt, chain.Tip()+1, err)
+				return
+			}
+			ctxt += ", reorg above the tip"
+		}
+		var rerr error
+		nt := a.WithoutTables("%rht", func() { rerr = a.Process(blk) })
+		attempts++
+		ctxt += fmt.Sprintf(", attempt with %d unreadable node table(s) -> %v", nt, rerr != nil)
+		if rerr == nil {
+			c.Failf(fmt.Sprintf("%s/fault-swallowed", p.Store), "%s: ProcessBlock returned nil although the tree's node table could not be read or written", ctxt)
+			return
+		}
+		c.Witness("failed_attempts_on_the_read_path")
+		compare(c, p, "failed-attempt-left-traces", a.Observe(chain), pre, ctxt)
 	}
 	for f := 0; f < maxFaults; f++ {
 		var ks []int // 0 = no fault
@@ -280,11 +333,12 @@ func main() {
 		MaxEvalsPerProcess: 900,
 		Run:                run,
 		Setup:              func(string) { kit.Quiet() },
-		Rule: "unit = (store, prefix history, faulted block kind, following blocks, single/double fault); choice points: fault position 0..K " +
+		Rule: "unit = (store, prefix history, faulted block kind, following blocks, single/double fault | read fault); choice points: fault position 0..K " +
 			"(0 = none; K = row writes of the block's transaction, measured), recovery (retry on same objects / restart), second fault position, restart before the following blocks; " +
 			"all combinations explored. non-trivial = at least one injected fault; distinct = distinct (unit, fault positions, recoveries, final observation)",
 		Assumptions: []string{
 			"a storage fault = one row write (INSERT/UPDATE/DELETE, including cascaded deletes) failing with an SQLite ABORT raised by a trigger; SQLite's own atomic commit is trusted",
+			"a storage fault on the READ path (readfault units) = the tree's node tables (…rht) renamed away for the duration of one ProcessBlock, so every statement touching them fails inside SQLite; placed where the frontier has to be rebuilt (after a restart, after a rolled-back attempt, after a reorg)",
 			"a process kill = the fault followed by dropping every in-memory object and re-opening the same file with the real constructor",
 			"context cancellation in the middle of a block cannot be placed at a chosen statement (database/sql rolls back from its own goroutine) and is not covered; see DESIGN §3.4/§8",
 			"the clause 'no later block is recorded while an earlier one is missing' is checked in the driver units: the real EVMDriver.Sync with its real retry loop over the real store, a fault at every row write persisting for 1..3 consecutive attempts (3 = the retry limit: the driver gives up), thorough: also every (first, second) position pair; sync.LogFatalf (process exit) is turned into the end of the driver goroutine",
